@@ -1450,3 +1450,74 @@ def selects_own_entries(fact) -> bool:
     if op.startswith("=="):
         return (s_.endswith(".ident") and v.endswith("[0]")) or (s_.endswith("[0]") and v.endswith(".ident"))
     return False
+
+
+def realm_key_case(ctx: Ctx, rule: str):
+    """Realm names are diameter identities (case-insensitive).  The route table is keyed by realm
+    name; every site that files or looks up a realm uses the same case normalisation: all keys
+    lower-cased, or none (then matching is case-sensitive on both sides, consistently).  A table
+    filed with lower-cased keys and searched with the name as received answers 3003 / raises
+    NotRoutable for every realm that is spelled with a capital letter."""
+    from ..srcmodel import AnalysisError
+    model = ctx.model
+    nc = model.cls("node.node", "Node")
+    ctx.rule(rule, "every key of the realm route table is case-normalised the same way at the "
+                   "sites that file it and the sites that look it up", floor=4)
+    sites = []
+    for fn_ in nc.all_funcs:
+        g = None
+        for x in A.walk_no_nested(fn_.node):
+            k = None
+            if isinstance(x, ast.Subscript) and A.dotted(x.value) == "self._peer_routes":
+                k = x.slice
+            elif isinstance(x, ast.Compare) and len(x.ops) == 1 and isinstance(x.ops[0], (ast.In, ast.NotIn)) \
+                    and A.dotted(x.comparators[0]) == "self._peer_routes":
+                k = x.left
+            elif isinstance(x, ast.Call) and isinstance(x.func, ast.Attribute) \
+                    and x.func.attr in ("get", "pop", "setdefault") \
+                    and A.dotted(x.func.value) == "self._peer_routes" and x.args:
+                k = x.args[0]
+            elif isinstance(x, ast.Dict) and fn_.name == "__init__":
+                par = A.parents(fn_.node)
+                p_ = par.get(x)
+                if isinstance(p_, (ast.Assign, ast.AnnAssign)) and any(
+                        A.dotted(t) == "self._peer_routes" for t in A.store_targets(p_)) and x.keys:
+                    k = x.keys[0]
+            if k is None:
+                continue
+
+            def lowered(e, depth=3):
+                if isinstance(e, ast.Call) and isinstance(e.func, ast.Attribute) \
+                        and e.func.attr in ("lower", "casefold") and not e.args:
+                    return True
+                if isinstance(e, ast.Name) and depth > 0:
+                    ds = [d.value for d in A.walk_no_nested(fn_.node) if isinstance(d, ast.Assign)
+                          and any(isinstance(t, ast.Name) and t.id == e.id for t in d.targets)]
+                    # `name = name.lower()` re-binding inside a loop over the raw names counts
+                    return bool(ds) and any(lowered(d, depth - 1) for d in ds) and all(
+                        lowered(d, depth - 1) or ast.unparse(d) == "self.realm_name" for d in ds)
+                return False
+            sites.append((fn_, x, lowered(k), ast.unparse(k)))
+    if len(sites) < 4:
+        raise AnalysisError(f"only {len(sites)} key sites of Node._peer_routes found")
+    cons = "_peer_routes:realm-key-case"
+    ctx.inst(cons, rule=rule, sample=[f"{f_.name}:{getattr(x, 'lineno', 0)} {'lower' if lo else 'raw'} {t}"
+                                      for f_, x, lo, t in sites][:12])
+    for f_, x, lo, t in sites:
+        ctx.inst(f"{cons}@{f_.name}", rule=rule, nontrivial=False)
+    kinds = {lo for _, _, lo, _ in sites}
+    if kinds == {False}:
+        f0, x0 = sites[0][0], sites[0][1]
+        ctx.fail(cons + "#insensitive", f0.loc(x0), "realm names are filed and looked up exactly as given: "
+                 "Destination-Realm is a DiameterIdentity and compares case-insensitively "
+                 "(rfc6733 5.6.4) - a request for REALM.A is answered 3003 by a node that serves "
+                 "realm.a, and an application request for it cannot be routed", rule=rule,
+                 expected="keys and looked-up names lower-cased (or case-folded)", observed="raw names")
+    elif len(kinds) != 1:
+        raw = [(f_.qualname, t) for f_, x, lo, t in sites if not lo]
+        f0, x0 = [(f_, x) for f_, x, lo, t in sites if not lo][0]
+        ctx.fail(cons, f0.loc(x0), f"the realm route table is keyed by lower-cased realm names at some "
+                 f"sites and by the name as given at others ({raw[:4]}): a realm spelled with a capital "
+                 f"letter (in the configuration or in a Destination-Realm) is filed under one key and "
+                 f"looked up under another - its requests are answered 3003 / cannot be routed",
+                 rule=rule, expected="one normalisation at every site", observed=str(raw[:4]))
